@@ -158,11 +158,27 @@ type dbState struct {
 	failAt  int // the failAt-th commit from the start fails (0 = never)
 	killAt  int // execution stops right after the killAt-th commit (0 = never)
 	writes  []string
+	// storage-operation boundaries (one per statement execution and per commit) and the intruder
+	ops       int
+	intrudeAt int
+	intruder  value
+}
+
+// storageOp marks a storage-operation boundary: an armed intruder (another request served in the
+// meantime) runs right before the chosen operation.
+func (in *Interp) storageOp(fr *frame, st *dbState) {
+	st.ops++
+	if st.intruder != nil && st.ops == st.intrudeAt {
+		f := st.intruder
+		st.intruder = nil
+		in.call(fr, 0, f, nil)
+	}
 }
 
 type dbHandle struct{ st *dbState }
 type txHandle struct {
 	st    *dbState
+	base  *sqlm.DB
 	local *sqlm.DB
 	done  bool
 	wrote bool
@@ -689,6 +705,7 @@ func (P *Program) registerSQL() {
 		return func(fr *frame, args []value) value {
 			in := fr.in
 			st := hDB(args[0])
+			in.storageOp(fr, st)
 			return in.sqlGet(st, st.db, args[off].(iface), in.goStr(args[off+1], "sql text"), in.bindArgs(args[off+2].(sliceVal)))
 		}
 	}
@@ -696,6 +713,7 @@ func (P *Program) registerSQL() {
 		return func(fr *frame, args []value) value {
 			in := fr.in
 			st := hDB(args[0])
+			in.storageOp(fr, st)
 			return in.sqlSelect(st, st.db, args[off].(iface), in.goStr(args[off+1], "sql text"), in.bindArgs(args[off+2].(sliceVal)))
 		}
 	}
@@ -705,7 +723,7 @@ func (P *Program) registerSQL() {
 	P.reg("(*"+X+".DB).SelectContext", sel(2))
 	P.reg("(*"+X+".DB).BeginTxx", func(fr *frame, args []value) value {
 		st := hDB(args[0])
-		var inner value = &opaque{kind: "sql.Tx", data: &txHandle{st: st, local: st.db.Clone()}}
+		var inner value = &opaque{kind: "sql.Tx", data: &txHandle{st: st, base: st.db, local: st.db.Clone()}}
 		txT := fr.fn.Signature.Results().At(0).Type()
 		outer := fr.in.zero(deref(txT))
 		outer.(structure)[0] = &inner
@@ -715,6 +733,7 @@ func (P *Program) registerSQL() {
 		in := fr.in
 		tx := hTx(args[0])
 		tx.wrote = true
+		in.storageOp(fr, tx.st)
 		err, n := in.sqlExec(tx.st, tx.local, in.goStr(args[2], "sql text"), in.bindNamed(args[3].(iface)))
 		return tuple{in.sqlResult(n), err}
 	})
@@ -722,6 +741,7 @@ func (P *Program) registerSQL() {
 		in := fr.in
 		tx := hTx(args[0])
 		tx.wrote = true
+		in.storageOp(fr, tx.st)
 		err, n := in.sqlExec(tx.st, tx.local, in.goStr(args[2], "sql text"), in.bindArgs(args[3].(sliceVal)))
 		return tuple{in.sqlResult(n), err}
 	}
@@ -735,6 +755,14 @@ func (P *Program) registerSQL() {
 		}
 		tx.done = true
 		st := tx.st
+		in.storageOp(fr, st)
+		if st.db != tx.base {
+			// another transaction committed since this one began: apply this one's writes on top is not
+			// modelled; intruders are restricted to reads
+			if tx.wrote && st.db != tx.base {
+				panic(unsupported{"interleaved write transactions are not modelled"})
+			}
+		}
 		st.commits++
 		if st.failAt > 0 && st.commits == st.failAt {
 			return in.mkError("injected storage failure at commit")
@@ -888,6 +916,13 @@ func (P *Program) registerVHDB() {
 		}()
 		return in.boolv(killed)
 	})
+	P.reg(VHDB+".Intrude", func(fr *frame, args []value) value {
+		st := hDB(args[0])
+		st.intrudeAt = st.ops + fr.in.mustInt(args[1], "intrusion position")
+		st.intruder = args[2]
+		return nil
+	})
+	P.reg(VHDB+".OpCount", func(fr *frame, args []value) value { return fr.in.intv(int64(hDB(args[0]).ops)) })
 	P.reg(VHDB+".WriteCount", func(fr *frame, args []value) value { return fr.in.intv(int64(hDB(args[0]).commits)) })
 }
 
